@@ -82,7 +82,7 @@ public:
 private:
 	int new_node(char type);
 	struct Res { int parent = -1; int ino = -1; std::string name; int err = 0; bool trailing_slash = false; };
-	Res resolve(const std::string &path, bool follow_final, int depth = 0);
+	Res resolve(const std::string &path, bool follow_final, int depth = 0, bool slash_follows = false);
 	bool may(const Inode &n, int want) const;   // want: 4 r, 2 w, 1 x
 	int check_fault(const std::string &call);
 	void record(FsLog &l);
